@@ -179,6 +179,113 @@ def bk2(p, res):
     return n
 
 
+def _reach_names(p, f, prefix, depth=3):
+    """callee names reachable from f (through library functions below `prefix`), with the defining function"""
+    seen = set()
+    out = {}
+    st = [(f, 0)]
+    while st:
+        g, d = st.pop()
+        if g is None or g.uid in seen:
+            continue
+        seen.add(g.uid)
+        for body in [g] + p.closures_of(g):
+            for bi, t in body.calls():
+                dd = body.callee_def(t) or {}
+                out.setdefault((dd.get("n", ""), dd.get("p", "")), g)
+                if d < depth and dd.get("u", "").startswith(prefix):
+                    st.append((p.fn(dd["u"]), d + 1))
+    return out
+
+
+def bk8(p, res):
+    """wrapping kernels agree over the full i64 range: where the reference kernel of a kernel-trait method multiplies with `i64::wrapping_mul` (low 64 bits of the 64 x 64 product),
+    the AVX kernel of the same method must not multiply with `_mm256_mul_epi32` (the signed product of the low 32 bits of each lane, exact only for operands that fit in i32)"""
+    kt = kernel_tables(p)
+    n = 0
+    for ref, avx in FAMILIES:
+        ta, tb = kt.get(ref, {}), kt.get(avx, {})
+        for t in sorted(set(ta) & set(tb)):
+            for m in sorted(set(ta[t]) & set(tb[t])):
+                fa, fb = ta[t][m], tb[t][m]
+                if fa is None or fb is None or fa.uid == fb.uid:
+                    continue
+                ra = _reach_names(p, fa, "poulpy_cpu_ref")
+                wide = [k for k in ra if k[0] == "wrapping_mul" and "<impl i64>" in k[1]]
+                if not wide:
+                    continue
+                n += 1
+                rb = _reach_names(p, fb, "poulpy_cpu_avx")
+                narrow = [(k, g) for k, g in rb.items() if k[0] == "_mm256_mul_epi32"]
+                if narrow:
+                    g = narrow[0][1]
+                    res.bad("BK-8", g.pretty, "narrow-multiply:_mm256_mul_epi32",
+                            "%s::%s: the reference kernel multiplies with i64::wrapping_mul, the AVX kernel %s with _mm256_mul_epi32, which reads only the low signed 32 bits of each lane: "
+                            "the two backends differ as soon as an operand does not fit in i32 (e.g. a = 2^31, b = 1)" % (avx, m, g.name), site=g.where())
+                else:
+                    res.ok("BK-8", {"kernel": m, "backend": avx, "reference": "i64::wrapping_mul", "avx": "no 32-bit signed multiply"})
+    return n
+
+
+def bk9(p, res):
+    """family twins: a shape function that exists under the same name in reference::fft64 and reference::ntt120 bounds its work by the same quantities. For every comparison of a bare
+    parameter with a derived bound (`if limb_offset >= col_max { .. }`), the set of parameters the bound depends on is the same in both families"""
+    from .sym import Sym, Poly
+
+    def norm(n):
+        return re.sub(r"_(u64|u32|i64|f64)$", "", n or "")
+    fam = {}
+    for f in p.lib_fns():
+        if f.kind == "Closure":
+            continue
+        m = re.match(r"poulpy_cpu_ref::reference::(fft64|ntt120)::(.*)$", f.uid)
+        if m:
+            fam.setdefault(m.group(2), {})[m.group(1)] = f
+
+    def deps(poly, f, out):
+        for a in poly.atoms():
+            if a[0] == "p":
+                out.add(norm(f.param_names().get(a[1])))
+            elif a[0] == "f":
+                for k in a[2]:
+                    deps(Poly(dict(k)), f, out)
+
+    def bounds(f):
+        sym = Sym(f, Flow(f))
+        g = CFG(f)
+        r = set()
+        for bi in sorted(g.reach):
+            for st in f.blocks[bi]["s"]:
+                if st[0] == "A" and st[2]["k"] == "Bin" and st[2]["op"] in ("Ge", "Gt", "Lt", "Le"):
+                    x, y = [sym.operand(o) for o in st[2]["o"]]
+                    for u, v in ((x, y), (y, x)):
+                        at = list(u.atoms())
+                        if len(u.t) == 1 and len(at) == 1 and at[0][0] == "p" and not at[0][2] and list(u.t.values()) == [1]:
+                            s = set()
+                            deps(v, f, s)
+                            if s:
+                                r.add((norm(f.param_names().get(at[0][1])), tuple(sorted(s))))
+        return r
+    n = 0
+    for k, d in sorted(fam.items()):
+        if len(d) < 2:
+            continue
+        fa, fb = d["fft64"], d["ntt120"]
+        ra, rb = bounds(fa), bounds(fb)
+        if not ra and not rb:
+            continue
+        n += 1
+        if ra == rb:
+            res.ok("BK-9", {"function": k, "bounds": sorted(ra)})
+        else:
+            da, db = sorted(ra - rb), sorted(rb - ra)
+            res.bad("BK-9", fa.pretty, "family-bound-differs:%s" % ",".join(sorted({x[0] for x in da + db})),
+                    "%s bounds `%s` by a quantity depending on %s in the FFT64 family and on %s in the NTT120 family: the two families keep a different number of product limbs "
+                    "(vmp with limb_offset = 1 into a result shorter than the matrix: 0 on FFT64, the last limb's product on NTT120)"
+                    % (k, (da or db)[0][0], [x[1] for x in da], [x[1] for x in db]), site=fa.where())
+    return n
+
+
 def bk3(p, res):
     impls = {backend_name(im): im for im in p.impls if im["trait"] == HALIMPL and not im["test"]}
     n = 0
@@ -473,6 +580,8 @@ def run(res, tier):
     res.rule("BK-4", "small / FFT64-big / NTT120-big siblings agree on the limb-coverage verdict")
     res.rule("BK-5", "target_feature kernels with a `len >> k` trip count have a scalar tail, a fallback to a *_ref kernel, or an explicit multiple-of-lanes check")
     res.rule("BK-7", "an AVX kernel's in-place (`*_assign_avx*`) and out-of-place forms use the same set of arithmetic / logic / compare intrinsics (loads, stores, constant set-ups ignored; a const-generic accumulate twin may add)")
+    res.rule("BK-8", "where the reference kernel uses i64::wrapping_mul the AVX kernel of the same trait method does not multiply with _mm256_mul_epi32 (low 32 bits only)")
+    res.rule("BK-9", "same-name shape functions of reference::fft64 and reference::ntt120 compare a parameter against bounds that depend on the same parameters")
     res.rule("BK-6", "AVX normalisation step kernels: (get_digit, get_carry) applications per lsh branch equal those of the *_ref twin")
     res.assumptions = ["kernel arithmetic inside matching twins is not compared", "FFT64 vs NTT120 numerical agreement is not decided"]
     cfgs = ["avx-dev"] if tier == "quick" else ["avx-dev", "avx-nodbg"]
@@ -495,6 +604,10 @@ def run(res, tier):
         res.floor("BK-5", "SIMD kernels with length-derived trip counts", n5, 25)
         n6 = bk6(p, res)
         res.floor("BK-6", "normalisation kernel twins", n6, 8)
+        n8 = bk8(p, res)
+        res.floor("BK-8", "kernel methods whose reference multiplies i64 x i64 wrapping", n8, 2, ref_min=0)
+        n9 = bk9(p, res)
+        res.floor("BK-9", "same-name shape functions of the two families with parameter bounds", n9, 1)
         n7 = bk7(p, res)
         res.floor("BK-7", "in-place / out-of-place AVX kernel pairs", n7, 15, ref_min=0)
         res.fn_count += n1 + n2 + n5 + n6
